@@ -36,3 +36,63 @@ package pdnode_coord
 //@   requires forall a int, b int :: 0 <= a && a < b && b < len(sortedNodes) ==> sortedNodes[a] != sortedNodes[b]
 //@   requires 0 <= i && i < partitionNum && 0 <= j1 && j1 < j2 && j2 < replica
 //@   ensures result[i][j1] != result[i][j2]
+
+//@ property C18
+
+//@ noeffect github.com/youzan/ZanRedisDB/cluster.CoordLog (*github.com/youzan/ZanRedisDB/cluster.PartitionMetaInfo).GetDesp (*github.com/youzan/ZanRedisDB/cluster.CoordErr).Error
+
+// THE INVARIANT, attached where replica metadata leaves the coordinator: whatever is written keeps
+//  - at most one replica marked for removal,
+//  - a strict majority of the replication factor unmarked,
+//  - every raft replica id <= MaxRaftID (ids are handed out by incrementing MaxRaftID: never reused).
+//@ interface (github.com/youzan/ZanRedisDB/cluster.PDRegister).UpdateNamespacePartReplicaInfo func(reg cluster.PDRegister, ns string, partition int, info *cluster.PartitionReplicaInfo, oldGen cluster.EpochType) error
+//@   requires info != nil && len(info.Removings) <= 1
+//@   requires isrQuorum(info.RaftNodes, info.Removings, outer(info).Replica) || (len(info.Removings) == 0 && len(info.RaftNodes) > outer(info).Replica / 2)
+//@   requires forall n string :: in(n, info.RaftIDs) ==> info.RaftIDs[n] <= info.MaxRaftID
+//@   requires oldGen == info.epoch
+
+//@ func (dp *DataPlacement) checkNamespaceNodeConflict(namespaceInfo *cluster.PartitionMetaInfo) bool
+//@   trusted read-only check that the node list has no conflicting nodes
+
+//@ spec idsOK(p *cluster.PartitionMetaInfo) bool = p != nil && p.RaftIDs != nil && 0 <= p.MaxRaftID && p.MaxRaftID < 4611686018427387904 && (forall n string :: in(n, p.RaftIDs) ==> p.RaftIDs[n] <= p.MaxRaftID)
+
+// adding a replica: only when nothing is marked for removal; the new id is MaxRaftID+1
+//@ func (pdCoord *PDCoordinator) addNamespaceToNode(origNSInfo *cluster.PartitionMetaInfo, nid string) *cluster.CoordErr
+//@   requires pdCoord != nil && pdCoord.dpm != nil && idsOK(origNSInfo) && len(origNSInfo.RaftNodes) > origNSInfo.Replica / 2
+//@   ensures result == nil ==> len(origNSInfo.Removings) == 0
+//@   ensures result == nil ==> origNSInfo.MaxRaftID == old(origNSInfo.MaxRaftID) + 1
+//@   ensures result == nil ==> in(nid, origNSInfo.RaftIDs) && origNSInfo.RaftIDs[nid] == origNSInfo.MaxRaftID
+//@   ensures result == nil ==> len(origNSInfo.RaftNodes) == old(len(origNSInfo.RaftNodes)) + 1
+//@   ensures result == nil ==> (forall n string :: in(n, origNSInfo.RaftIDs) ==> origNSInfo.RaftIDs[n] <= origNSInfo.MaxRaftID)
+//@   modifies *
+
+// marking a replica for removal: never a second one, and only while a strict majority stays unmarked
+//@ func (pdCoord *PDCoordinator) removeNamespaceFromNode(origNSInfo *cluster.PartitionMetaInfo, nid string) *cluster.CoordErr
+//@   requires pdCoord != nil && idsOK(origNSInfo) && len(origNSInfo.Removings) <= 1
+//@   ensures result == nil ==> len(origNSInfo.Removings) <= 1
+//@   ensures result == nil ==> in(nid, origNSInfo.Removings)
+//@   modifies *
+
+//@ func IsRaftNodeSynced(nsInfo *cluster.PartitionMetaInfo, nid string) (bool, error)
+//@   trusted asks the data node over HTTP (any answer possible)
+//@ func IsAllISRFullReady(nsInfo *cluster.PartitionMetaInfo) (bool, error)
+//@   trusted asks the data nodes over HTTP (any answer possible)
+//@ func (dp *DataPlacement) allocNodeForNamespace(namespaceInfo *cluster.PartitionMetaInfo, currentNodes map[string]cluster.NodeInfo) (*cluster.NodeInfo, *cluster.CoordErr)
+//@   trusted read-only choice of a node
+//@   ensures result1 == nil ==> result0 != nil
+
+// reacting to node failures: whatever is written still satisfies the invariant of the register contract
+// (at most one removal marked, majority unmarked, ids <= MaxRaftID), proved at the call of
+// UpdateNamespacePartReplicaInfo for every combination of node-liveness / sync-status answers
+//@ func (pdCoord *PDCoordinator) handleNamespaceMigrate(origNSInfo *cluster.PartitionMetaInfo, currentNodes map[string]cluster.NodeInfo, currentNodesEpoch int64) *cluster.CoordErr
+//@   requires pdCoord != nil && pdCoord.dpm != nil && idsOK(origNSInfo) && len(origNSInfo.Removings) <= 1
+//@   modifies *
+//@ loop 1
+//@   invariant nsInfo != nil && fresh(nsInfo) && nsInfo != origNSInfo && 0 <= aliveReplicas && aliveReplicas <= iter
+//@   invariant nsInfo.Removings != nil ==> fresh(nsInfo.Removings)
+//@   invariant len(nsInfo.Removings) <= 1 && (isrChanged || len(nsInfo.Removings) == 0)
+//@   invariant nsInfo.RaftIDs != nil && fresh(nsInfo.RaftIDs) && 0 <= nsInfo.MaxRaftID && nsInfo.MaxRaftID < 4611686018427387904 && (forall n string :: in(n, nsInfo.RaftIDs) ==> nsInfo.RaftIDs[n] <= nsInfo.MaxRaftID)
+//@   invariant pdCoord.dpm != nil
+//@ loop 2
+//@   invariant nsInfo != nil && pdCoord.dpm != nil && len(nsInfo.Removings) == 0
+//@   invariant nsInfo.RaftIDs != nil && 0 <= nsInfo.MaxRaftID && nsInfo.MaxRaftID < 4611686018427387904 && (forall n string :: in(n, nsInfo.RaftIDs) ==> nsInfo.RaftIDs[n] <= nsInfo.MaxRaftID)
